@@ -133,6 +133,8 @@ pub struct Violation {
 pub struct Acc {
     pub evaluations: u64,
     pub distinct: HashSet<u64>,
+    /// distinct cases counted by construction (enumeration index) rather than through the hash set
+    pub distinct_enumerated: u64,
     pub samples: Vec<Value>,
     pub counters: Map<String, Value>,
     pub violations: Vec<Violation>,
@@ -140,7 +142,8 @@ pub struct Acc {
 }
 
 pub const MAX_SAMPLES: usize = 6;
-pub const MAX_VIOLATIONS: usize = 40;
+pub const MAX_VIOLATIONS: usize = 400;
+pub const MAX_PER_SIGNATURE: usize = 3;
 
 impl Acc {
     pub fn new() -> Acc { Acc::default() }
@@ -170,6 +173,11 @@ impl Acc {
     }
     pub fn get(&self, key: &str) -> u64 { self.counters.get(key).and_then(Value::as_u64).unwrap_or(0) }
     pub fn violation(&mut self, signature: &str, detail: String, replay: Value) {
+        let same = self.violations.iter().filter(|v| v.signature == signature).count();
+        if same >= MAX_PER_SIGNATURE {
+            self.count("violations_beyond_per_signature_cap", 1);
+            return;
+        }
         if self.violations.len() < MAX_VIOLATIONS {
             self.violations.push(Violation { signature: signature.to_string(), detail, replay });
         } else {
@@ -184,6 +192,7 @@ impl Acc {
     pub fn merge(&mut self, other: Acc) {
         self.evaluations += other.evaluations;
         self.distinct.extend(other.distinct);
+        self.distinct_enumerated += other.distinct_enumerated;
         for s in other.samples {
             self.sample(s);
         }
@@ -228,7 +237,7 @@ pub fn stage_report(
         "rule": rule,
         "exhaustive": exhaustive,
         "evaluations": acc.evaluations,
-        "distinct_nontrivial": acc.distinct.len(),
+        "distinct_nontrivial": acc.distinct.len() as u64 + acc.distinct_enumerated,
         "samples": acc.samples,
         "counters": acc.counters,
         "violations": acc.violations.iter().map(|v| json!({
